@@ -93,7 +93,8 @@ Definition do_pop (c : core) (o : pop) : core :=
   | PAddrTab =>
       if c_addrtab c then c
       else set_counts c (c_sec c + 1) (c_lab c) (c_vregs c) (c_ja c) (c_names c) true (c_lpool c)
-  | PFunc n => set_counts c (c_sec c) (c_lab c + 2) (c_vregs c + (if N.eqb n 0 then 1 else n)) (c_ja c) (c_names c) (c_addrtab c) false
+  | PFunc n => set_counts c (c_sec c) (c_lab c + 2) (c_vregs c + (if N.eqb n 0 then 1 else n)) (c_ja c) (c_names c) (c_addrtab c) (c_lpool c)
+      (* add_func does not touch the local constant pool: a function that was left open keeps it until an end_func *)
   | PVreg n => set_counts c (c_sec c) (c_lab c) (c_vregs c + n) (c_ja c) (c_names c) (c_addrtab c) (c_lpool c)
   | PConst =>
       if c_lpool c then c
